@@ -304,6 +304,8 @@ def isLiteral (test : String) (lits : List String) (v : PyVal) : Bool :=
   if test = "exact" then lits.contains v.ty
   else if test = "exact-finite" then lits.contains v.ty && !(v.ty == "float" && !v.finite)
   else if test = "isinstance" then (v.ty :: v.bases).any lits.contains
+  else if test = "isinstance-finite" then
+    (v.ty :: v.bases).any lits.contains && !(v.ty == "float" && !v.finite)
   else false
 
 /-- `ParentTranslator.ref_value`: the first branch (in the extracted order) whose test holds;
